@@ -31,6 +31,9 @@ func init() {
 			{ID: "C06.g", Title: "LOCK-CAS", Template: "T5+T8", MinInst: 10,
 				Rule: "every lock backend's Replace/Create carries its precondition and a failed conditional write is an error (as C05.b, C05.g): at most one instance can extend a given checkpoint",
 				Run:  func(c *Ctx) { c05b(c); c05g(c) }},
+			{ID: "C06.j", Title: "PUBLISH-ONLY-BY-WINNER", Template: "T1+T4+T6", MinInst: 3,
+				Rule: "the published checkpoint object is written only by a function that has just won the lock-store commit (Replace/Create success edge) and with the committed bytes (as C01.a, C01.b): an instance that loses, is stale, or is only starting up publishes nothing",
+				Run:  func(c *Ctx) { c01a(c); c01b(c) }},
 			{ID: "C06.i", Title: "CAS-FROM-LOADED", Template: "T6+T4", MinInst: 4,
 				Rule: "the value compared by the sequencer's CAS is the lock checkpoint the Log was loaded from, and the tree the Log extends is the one opened from that same lock checkpoint (as C01.e, C08.a): an instance whose tree and CAS handle come from different fetches can win the CAS with a stale tree",
 				Run:  func(c *Ctx) { c01e(c); c08a(c) }},
